@@ -1,15 +1,14 @@
 SPEC = {
     "trusted": [
         "C09: IndexMap<K,V> is modelled as the list of its nodes in insertion order with the key derived from the node's info (coq/Quill/Mappings.v); IndexMap::get and IndexSet::from_iter are modelled by find_by / uniq (first occurrence wins); `unreachable!()` in zip_map is modelled as Err and proved unreachable",
-        "C09: the specification side of the theorems is the vocabulary at the end of coq/C09/Model.v (union, cls/fld/mth/prm lookups along key paths, row3, first_some, view, restrict) and doc_conflict / conflict in coq/C09/Theory2.v, Theory4.v",
+        "C09: the specification side of the theorems is the vocabulary at the end of coq/C09/Model.v (union, cls/fld/mth/prm lookups along key paths, row3, first_some, view, restrict), doc_conflict / conflict in coq/C09/Theory2.v, Theory4.v, the order law reord / reorder in coq/C09/Theory9.v (characterised by C09_reord_spec) and C03's nested-permutation relation mappings_equiv (coq/C03/Theory6.v)",
         "C09: correspondence cases with a string table (CMergeT): coq/C09/Run.v rs/rmappings substitute table entries for the one-element index lists the harness prints; Intern in harness/src/bin/c09.rs produces them",
-        "C09: the harness' independent reference join and conflict scan (harness/src/bin/c09.rs ref_join, conflicts, restrict, check_columns, key_paths) are the oracle used to search for failing inputs on the implementation",
+        "C09: the harness' independent reference join and conflict scan (harness/src/bin/c09.rs ref_join, conflicts, restrict, reorder, check_columns, key_paths) are the oracle used to search for failing inputs on the implementation",
     ],
     "assumptions": [
         "inputs of Mappings::merge are well-formed two-namespace sets (wf2, decidable, re-checked inside Coq on every correspondence case): every names row has two cells, no empty-string name or namespace, classes/fields/methods have a first-namespace name, keys are unique per map and are the keys derived from the nodes — what quill's constructors and readers maintain; a tree whose IndexMap keys disagree with its nodes (possible only by mutating the public fields) is outside the model and is exercised by an oracle-only stream",
         "error messages are not modelled: every error is the single outcome Err",
     ],
     "stated_not_proved": [
-        "merge_restrict_b : wf2 A -> wf2 B -> merge A B = Ok M -> restrict 2 B M is B up to the order of entries at every level (the filtered merged set lists shared entries first); proved instead: the order-free lookup form view 2 B M = B (C09_merge_project) and the exact filter form for A (C09_merge_restrict); the B filter form is evaluated on the implementation by the harness oracle on every generated pair",
     ],
 }
